@@ -1173,6 +1173,89 @@ func (w *world) lazyReaderSweep() {
 	}
 }
 
+// lockedView0Script: all correct members get prepared in view 0 on the correct leader's block A, their COMMITs are
+// withheld, they time out and send their votes - each carrying the view-0 prepared proof and A - to the Byzantine leader
+// of view 1, which answers with a NEW_VIEW that embeds those genuine votes but proposes a fresh block B. A proof of
+// view 0 is a proof: the NEW_VIEW must be ignored (C07, C09; zero is the boundary value of "highest proof view").
+func (w *world) lockedView0Script() {
+	for _, n := range w.honest {
+		w.sync(n, nil)
+	}
+	w.take(2, "PP", 0)
+	w.take(3, "PP", 0)
+	w.take(0, "P", 2)
+	w.take(0, "P", 3)
+	w.take(2, "P", 3)
+	w.take(3, "P", 2)
+	for _, id := range []uint64{0, 2, 3} {
+		w.election(w.byId[id], 1, 0)
+	}
+	var votes []aVote
+	seen := map[uint64]bool{}
+	for _, m := range w.history {
+		if m.Kind == "VC" && m.Vote.Height == 1 && m.Vote.View == 1 && !seen[m.Vote.Snd.Id] && m.Vote.Snd.Ok {
+			votes = append(votes, cloneVote(*m.Vote))
+			seen[m.Vote.Snd.Id] = true
+		}
+	}
+	if len(votes) < 3 {
+		w.rep.count("world:directed-locked-view0-setup-failed")
+		return
+	}
+	b := &aBlock{Height: 1, Id: 2999301}
+	nv := &aMsg{Kind: "NV", NVType: 4, NVInst: worldInst, NVHeight: 1, NVView: 1, Votes: votes, Snd: aSig{1, true},
+		Ref: aRef{1, worldInst, 1, 1, b.Id}, PPSnd: aSig{1, true}, Block: b}
+	for _, id := range []uint64{0, 2, 3} {
+		w.inject(w.byId[id], nv.clone(), "byz-NV-fresh-block-over-view0-proofs")
+	}
+	// whatever the members answered is delivered
+	for k := 0; k < 40 && len(w.pool) > 0; k++ {
+		p := w.pool[0]
+		w.pool = w.pool[1:]
+		if p.msg.Kind == "C" && p.msg.view() == 0 {
+			continue // the COMMITs of view 0 stay lost
+		}
+		w.deliverG(w.byId[p.to], p.msg, p.raw, p.genuine)
+	}
+}
+
+// doubleNewViewScript: the correct members time out of view 0 without being prepared and vote for view 1, whose leader
+// is Byzantine; it answers with two well-formed NEW_VIEWs for view 1 that propose different blocks. A correct member
+// PREPAREs at most one of them (C10: one hash per height and view).
+func (w *world) doubleNewViewScript() {
+	for _, n := range w.honest {
+		w.sync(n, nil)
+	}
+	for _, id := range []uint64{0, 2, 3} {
+		w.election(w.byId[id], 1, 0)
+	}
+	var votes []aVote
+	seen := map[uint64]bool{}
+	for _, m := range w.history {
+		if m.Kind == "VC" && m.Vote.Height == 1 && m.Vote.View == 1 && !seen[m.Vote.Snd.Id] && m.Vote.Snd.Ok {
+			votes = append(votes, cloneVote(*m.Vote))
+			seen[m.Vote.Snd.Id] = true
+		}
+	}
+	if len(votes) < 3 {
+		w.rep.count("world:directed-double-new-view-setup-failed")
+		return
+	}
+	for k, id := range []uint64{2999401, 2999402} {
+		b := &aBlock{Height: 1, Id: id}
+		nv := &aMsg{Kind: "NV", NVType: 4, NVInst: worldInst, NVHeight: 1, NVView: 1, Votes: votes, Snd: aSig{1, true},
+			Ref: aRef{1, worldInst, 1, 1, b.Id}, PPSnd: aSig{1, true}, Block: b}
+		for _, to := range []uint64{0, 2, 3} {
+			w.inject(w.byId[to], nv.clone(), fmt.Sprintf("byz-NV-%d-of-2-same-view", k+1))
+		}
+	}
+	for k := 0; k < 60 && len(w.pool) > 0; k++ {
+		p := w.pool[0]
+		w.pool = w.pool[1:]
+		w.deliverG(w.byId[p.to], p.msg, p.raw, p.genuine)
+	}
+}
+
 func (w *world) kf1ForkScript() {
 	for _, n := range w.honest {
 		w.sync(n, nil)
